@@ -37,9 +37,12 @@ class C19(Prop):
                       stub=["process pool (SimPool, direct mode = user calling the optimiser in their own process)", "stdout"])
 
     def plan(self, tier):
+        # a few JIT-compiled worker interpreters too: read-only / Fortran-ordered arrays reach the compiled kernels there
         if tier == "quick":
-            return {"nojit": dict(count=240, workers=16), "_soft_deadline": 90}
-        return {"nojit": dict(count=12000, workers=16), "_soft_deadline": 1500}
+            return {"nojit": dict(count=240, workers=13), "jit": dict(count=45, workers=3, numba_threads=4),
+                    "_soft_deadline": 90}
+        return {"nojit": dict(count=12000, workers=13), "jit": dict(count=1500, workers=3, numba_threads=4),
+                "_soft_deadline": 1500}
 
     def gen(self, seed):
         r = core.rng(seed, "C19", "gen")
@@ -184,7 +187,7 @@ class C19(Prop):
                 for k, d in self.judge_call(fo):
                     found.append((k, f"[fault {pt}] {d}", dict(kind="call", case=freeze_decisions(c, fo))))
             # real pool: parent-side writes are still visible
-            if r.random() < (0.12 if tier == "quick" else 0.06):
+            if mode != "jit" and r.random() < (0.12 if tier == "quick" else 0.06):   # no fork after OpenMP threads started
                 c = workload.clone(case)
                 c["pool"] = dict(kind="real", sched_seed=0, bias="fifo", eager_pickle_p=1.0, cold_cache=False,
                                  choices=[], direct=False)
